@@ -50,6 +50,42 @@ CLAIMED = {
          "2M (quick) / 40M (thorough) argument tuples over all 12 constructor/setter families (29 functions), each judged for Ok <=> valid, exact value, OutOfRange, no panic, plus ~45 alternative-value probes per rejected call whose message states a range",
          "trusts the validity models of C01/C08/C09/C10; messages without the 'must be in the range' form, or naming a receiver field rather than an argument, are not judged",
          "DESIGN.md 4 C15"),
+ "C11": ("grammar-based pattern generation + symbol x width x value-class product against a reference formatter written from the doc tables",
+         "500k (quick) / 10M (thorough) (value, pattern) cases over all three types, all eras, all offsets, patterns of fields x widths 1..=10, literals incl. non-ASCII, quoted text and '' escapes; plus the complete product 19 symbols x 10 widths x ~2300 value classes; output compared character by character with the reference rendering",
+         "trusts the reference formatter (reproduces all 403 format assertions of the repository's own tests at every selftest); renderings the table leaves open (yy for years <= -10, b inside the noon/midnight second, X..XXX for |offset| < 60 s) are skipped and counted",
+         "DESIGN.md 4 C11"),
+ "C12": ("round-trip property over a constructed grammar of coherent, textually unambiguous patterns; inputs are the crate's own formatted output",
+         "500k (quick) / 10M (thorough) (value, pattern) cases; parse(format(v,p),p) must succeed, re-format to the same string, default absent groups, and - when the pattern carries full date, time and zone - return the same instant and offset",
+         "the pattern grammar encodes the property's 'unambiguous in text' precondition (separator after variable-width fields, no narrow names, zone wide enough, derived fields only next to their determining fields); anything outside is skipped and counted, not judged",
+         "DESIGN.md 4 C12"),
+ "C13": ("grammar-based generation from the RFC 3339 ABNF + field mutants against an independent hand-written RFC 3339 reader/writer",
+         "500k + 500k (quick) / 10M + 10M (thorough): write side over all instants of years 0001-9999 x whole-minute offsets x 5 precisions, read side over ABNF strings with 0..40 fraction digits and 11 kinds of out-of-range field mutants, through parse_rfc3339 and FromStr",
+         "year 0000, second :60 and lower-case t/z are unspecified and not judged; beyond nine fraction digits truncation and round-to-nearest are both accepted",
+         "DESIGN.md 4 C13"),
+ "C14": ("complete enumeration of short hostile strings per symbol x width + grammar-aware mutational generation + coverage-guided libFuzzer targets, all under catch_unwind with a validity oracle on Ok",
+         "quick: all 1885 strings of length <= 3 over a 12-symbol alphabet (1-4 byte characters, signs, quote) x 456 one-field patterns and through every pattern-less API (~3.7M calls) + 1.1M mutated grammar cases; thorough: length <= 4 (22621 strings), 22M mutated cases and libFuzzer campaigns on the text and TZif targets",
+         "a panic anywhere in parse/from_str/parse_rfc3339/format/CronSchedule::parse/serde is a violation; Ok values are re-validated through the public constructors",
+         "DESIGN.md 4 C14"),
+ "C16": ("grammar-based generation + single-edit mutation + per-field complete value/step/range enumeration against a reference cron parser; denoted sets observed through the iterator under a pinned clock",
+         "130k (quick) / 2M (thorough) expressions (half mutated) plus every value, step and (grid of) ranges per field; accept/reject agreement and, for accepted expressions, equality of each field's denoted set read back through five probe schedules",
+         "leading zeros, '+' on values, steps > max+1, ranges with start > end and Unicode white space are unspecified and skipped; needs the clock pin hook",
+         "DESIGN.md 4 C16"),
+ "C17": ("model-based stateful generation: histories of (advance pinned clock, next, optional clone) against a reference earliest-matching-minute search",
+         "50k (quick) / 2M (thorough) histories of up to 12 calls (40 in the fixed cases) over sparse/dense schedules, month ends, leap days, year ends, clock jumps from 0 s to 800 days; every returned value must equal the reference",
+         "'restricted' day field = its value set is not the full range (set semantics, as the implementation and the property's anchors use); clock window 1970-2400; needs the clock pin hook",
+         "DESIGN.md 4 C17"),
+ "C18": ("differential against a reference RFC 8536 / POSIX-TZ evaluator (itself cross-checked against CPython zoneinfo) over a vendored zoneinfo corpus and synthesized TZif files",
+         "all 788 vendored fat+slim zone files x ~150 (quick) / ~2000 (thorough) timestamps at transitions, rule switches and random instants, plus 20k (quick) / 1M (thorough) synthesized v1/v2/v3 files with IANA-shaped footer rules; one case in ten through the real Offset::Local.resolve() with injected /etc/localtime and pinned clock",
+         "only timestamps from the first transition on are judged; empty footers, leap-second tables and the right/ tree are out of scope; needs the TZif entry point and /etc/localtime injection hooks",
+         "DESIGN.md 4 C18"),
+ "C19": ("structure-aware mutation of valid TZif files + mutated POSIX-TZ grammar + raw bytes, under catch_unwind; libFuzzer target on raw bytes in the thorough tier",
+         "quick: ~9k systematic mutants (every header count x value, every truncation point, type bytes, hostile rule strings) + 350k random mutants, each accepted file probed at ~100 timestamps over the whole DateTime range, one in ten through Offset::Local.resolve(); thorough: 6M mutants + fuzz campaign",
+         "'never loops' is only bounded by observing that every case returns (a case above 2 s is labelled); I/O failure modes other than a read error are not modelled",
+         "DESIGN.md 4 C19"),
+ "C20": ("seeded random search against the reference formatter and a serde_json round trip; mutational generation for malformed text",
+         "500k (quick) / 10M (thorough) values of all three types (all eras, all offsets) for Display/FromStr/serde, 300k / 5M malformed texts through FromStr and serde_json under catch_unwind",
+         "DateTime serde is judged for years 0001-9999 and whole-minute offsets only (the RFC 3339 domain)",
+         "DESIGN.md 4 C20"),
 }
 PLANNED = {}
 props = [json.loads(l) for l in open(os.path.join(ROOT, "properties.jsonl"))]
